@@ -1,5 +1,6 @@
 import Drv.Json
 import Model.Rev.Heads
+import Spec.Rev
 namespace Drv.Rev
 open Lean Model.Rev
 
@@ -72,6 +73,45 @@ def handle (op : String) (j : Json) : Option Json :=
       match r with
       | .error e => some (errJ e)
       | .ok rs => some (obj [("revs", Json.arr (rs.map (fun x => match x with | some i => Json.str i | none => Json.null)).toArray)])
+  | "rev.spec.upgrade" =>
+    let h := histOfJson j
+    some (obj [("holds", Json.bool (Spec.Rev.upgradeOk h (getStrList j "rows") (getStrList j "targets") (getStrList j "plan")))])
+  | "rev.spec.downgrade" =>
+    let h := histOfJson j
+    some (obj [("holds", Json.bool (Spec.Rev.downgradeOk h (getStrList j "rows") (getStr j "target") (getStr j "branch") (getStrList j "plan")))])
+  | "rev.spec.rows" =>
+    let h := histOfJson j
+    some (obj [("holds", Json.bool (Spec.Rev.rowsOk h (getStrList j "applied") (getStrList j "rows"))),
+               ("maximal", strs (Spec.Rev.maximal h (getStrList j "applied")))])
+  | "rev.spec.stamp" =>
+    let h := histOfJson j
+    some (obj [("holds", Json.bool (Spec.Rev.stampOk h (getStrList j "rows") (getStrList j "dests") (getStrList j "rows2")))])
+  | "rev.spec.load" =>
+    let h := histOfJson j
+    some (obj [("hasCycle", Json.bool (Spec.Rev.hasCycle h)), ("hasDownCycle", Json.bool (Spec.Rev.hasDownCycle h)),
+               ("heads", strs (Spec.Rev.headsOf h)), ("realHeads", strs (Spec.Rev.realHeadsOf h)),
+               ("bases", strs (Spec.Rev.basesOf h)), ("realBases", strs (Spec.Rev.realBasesOf h))])
+  | "rev.spec.targets" =>
+    let h := histOfJson j
+    match Spec.Rev.refTargets h (getStrD j "ident") with
+    | some t => some (obj [("targets", strs t)])
+    | none => some (obj [("undefined", Json.bool true)])
+  | "rev.spec.refuse" =>
+    let h := histOfJson j
+    some (obj [("mustRefuse", Json.bool (Spec.Rev.mustRefuse h (getStrList j "rows") (getStr j "target") (getStr j "branch")))])
+  | "rev.spec.trace" =>
+    let h := histOfJson j
+    let rows := getStrList j "rows"
+    let steps := (getArr j "steps").map (fun s => (getStrD s "rev", getBoolD s "up"))
+    let tr := (getArr j "trace").map asStrList
+    some (obj [("holds", Json.bool (Spec.Rev.traceOk h (Spec.Rev.ancSet h rows) steps tr)),
+               ("startOk", Json.bool (Spec.Rev.antichain h rows))])
+  | "rev.spec.antichain" =>
+    let h := histOfJson j
+    some (obj [("holds", Json.bool (Spec.Rev.antichain h (getStrList j "rows")))])
+  | "rev.spec.anc" =>
+    let h := histOfJson j
+    some (obj [("anc", strs (Spec.Rev.ancSet h (getStrList j "roots")))])
   | _ => none
 
 end Drv.Rev
